@@ -46,6 +46,7 @@ import PyYetiVerif.Props.C17CdfConv
 #print axioms PyYetiVerif.C17.newmark_last_step_converges_scalar
 #print axioms PyYetiVerif.C17.newmark_modal_decomposition
 #print axioms PyYetiVerif.C17.newmark_converges_modal_full
+#print axioms PyYetiVerif.C17.newmark_velocity_converges_modal_full
 #print axioms PyYetiVerif.C17.newmark_energy_stable_full
 #print axioms PyYetiVerif.C17.newmark_truncation_bound_full
 #print axioms PyYetiVerif.C17.newmark_converges_energy_partial
